@@ -64,13 +64,17 @@ def one_edit(rng):
 
 class C03(Property):
     id = "C03"
-    lean_module = "RosuModel.Props.C03"
+    lean_module = "RosuModel.Props.C03Frame"   # imports Props/C03.lean; both files are in namespace Rosu.C03
     namespace = "Rosu.C03"
     design_ref = "5.3"
     required_theorems = ["title_line_sets_title", "artist_line_sets_artist", "edit_survives_metadata", "edit_frame_metadata",
                          "edit_survives_colours", "edit_frame_colours", "edit_survives_editor", "edit_frame_editor",
                          "edit_survives_difficulty", "edit_frame_difficulty", "edit_survives_events", "edit_frame_events",
-                         "edit_survives_general", "edit_frame_general", "edit_survives_records"]
+                         "edit_survives_general", "edit_frame_general", "edit_survives_records",
+                         "encode_objects_depends_only_on", "encode_timing_depends_only_on", "encode_ok_of_same_list_inputs",
+                         "decode_block_independent_state", "decode_block_independent", "edit_frame_objects", "edit_frame_objects_maps",
+                         "frameEdit_metadata", "frameEdit_editor", "frameEdit_colors", "frameEdit_general", "frameEdit_difficulty",
+                         "frameEdit_background", "FrameEdit.trans"]
     partial_theorems = {
         "edit_survives_editor / _difficulty / _events / _general / _records (and the matching edit_frame_*)":
             "law-dependent: proved for every number codec satisfying CodecLaws (+ IntPrintLaw for AudioLeadIn), shown satisfiable by Lemmas/ToyCodec.lean; not proved of Rust's "
@@ -79,17 +83,34 @@ class C03(Property):
         "edit_survives_* / edit_frame_* are section level": "an edit replaces a section record by a representable record; the block the encoder writes for it reads back as exactly that record, and "
             "any observation the edit did not change reads as for the unedited record. edit_survives_records lifts this to the file (encode, bytes, reader, framing, Beatmap decoder) "
             "for the record fields, assuming only the shape of the [TimingPoints]/[HitObjects] blocks",
-        "edit_frame (timing and hit-object views)": "NOT yet a theorem (`def edit_frame_objects_statement : Prop`): that an edit other than mode / slider multiplier / tick rate leaves the "
-            "re-decoded hit objects and timing points unchanged. Evaluated on the implementation (oracle `edit`: every edited field reads back the edited value; every other preserved "
-            "field equals the unedited round trip) and on the model by the `edit` correspondence (identical text and identical re-decoded map)",
+        "edit_frame_objects / edit_frame_objects_maps (timing and hit-object views)":
+            "now a theorem, conditional like edit_survives_records: for every lawful number codec (CodecLaws + IntPrintLaw, satisfiable: Lemmas/ToyCodec.lean, concrete example "
+            "`frameSample_map` / `frameSample_edited` in Props/C03Frame.lean), representable record sections before and after the edit, and the [TimingPoints]/[HitObjects] blocks of the "
+            "UNEDITED map being LF-free record lines (RtFile.ListBlockShape — the open part of C04, `C04.list_block_lines_accepted_statement`; nothing is assumed of the edited map's "
+            "blocks). Edit = FrameEdit m m': anything that leaves format version, mode, slider multiplier, slider tick rate, breaks, control points and hit objects as they were "
+            "(metadata, editor, colours, background file, other general and difficulty fields; multi-field edits by FrameEdit.trans). Conclusion: encoding the edited map succeeds "
+            "whenever encoding the unedited one does; both texts are read back without I/O error; the two decoder states agree on hit objects, pending group and control points; "
+            "finalisation gives the same hit objects and control points or fails identically. Excluded on purpose: mode, slider multiplier, slider tick rate, breaks (the decoder / "
+            "encoder propagate them into objects and timelines). The older `def edit_frame_objects_statement` (lengths only, no representability or shape hypothesis) stays in "
+            "Props/C03.lean as a statement; its unconditional form needs the list-block shape from C04",
+        "encode_*_depends_only_on / decode_block_independent(_state)":
+            "unconditional (no codec law): the [HitObjects] block is a function of (hit objects, mode); the [TimingPoints] block of (control points, hit objects, mode, format version, "
+            "slider multiplier, slider tick rate), failures included. For two files of the encoder's shape (version line, eight blocks of record lines in canonical order) with the same "
+            "[TimingPoints] and [HitObjects] lines, the decoder state's hit objects / pending group / control points depend on the record blocks only through the mode, default sample "
+            "bank and default sample volume [General] leaves; the finalised hit objects and control points additionally only through the slider multiplier [Difficulty] leaves and the "
+            "breaks [Events] leaves. The model's decoder reads neither the version line nor the tick rate for these views. Proved for the encoder's concrete shape, not for arbitrary "
+            "section order / repeated sections",
     }
     level_text = ("Lean 4 theorems: for each of the six record sections, editing the section record to any representable value and round-tripping the encoded block gives exactly the "
                   "edited record, and leaves every observation the edit did not touch as it was (metadata also field by field: ten fields, one edited, nine unchanged); lifted to the file "
-                  "for the record fields (edit_survives_records). Sections with floats are proved for every lawful number codec. The frame clause for hit objects and timing points is not yet "
-                  "a theorem. Decoder+encoder model compared with the code on decode → edit through the public fields → encode → decode (identical text and map). "
+                  "for the record fields (edit_survives_records). Sections with floats are proved for every lawful number codec. The frame clause for hit objects and timing points is a theorem too "
+                  "(edit_frame_objects: an edit that leaves mode, slider multiplier, tick rate, breaks, format version, control points and hit objects alone yields the same re-decoded hit "
+                  "objects and control points), under the codec laws and the assumption that the unedited map's two list blocks are LF-free record lines (the open part of C04); the list "
+                  "blocks are shown to be functions of exactly the fields named, and the decoder's object / control-point state to depend on the record blocks only through mode, default "
+                  "sample bank / volume, slider multiplier and breaks. Decoder+encoder model compared with the code on decode → edit through the public fields → encode → decode (identical text and map). "
                   "The property is evaluated on the real code for single- and multi-field edits drawn from per-field generators (strings with ':', '//', ',', quotes, brackets, header- and "
                   "version-like text, non-ASCII; boundary numbers; flags, mode, countdown; bookmarks; colours; breaks).")
-    technique = "Lean 4 proof (section- and record-file-level edit/frame theorems; law-dependent where floats are printed) + `edit` correspondence + implementation-level edit/frame oracle"
+    technique = "Lean 4 proof (section- and record-file-level edit/frame theorems incl. the hit-object / timing-point frame; law-dependent where floats are printed) + `edit` correspondence + implementation-level edit/frame oracle"
     trusted_base = [
         "Lean 4.33.0 kernel; axioms ⊆ {propext, Classical.choice, Quot.sound} per #print axioms",
         "hand-written decode + encode models tied to /repo by the `edit` differential of this run",
